@@ -126,7 +126,8 @@ def zero_variants(b, exact_arith=True):
     """
     if b == 0:
         return [0]
-    near = abs(b - round(b)) <= F(1, 10 ** 9) and (b.denominator != 1 or not exact_arith)
+    # (an exactly whole number of bins is constrained: the library takes a product within 1e-8 of a whole number as that number)
+    near = abs(b - round(b)) <= F(1, 10 ** 8) and b.denominator != 1
     if b > 0:
         v = [math.ceil(b)]
         if near:
@@ -222,7 +223,7 @@ def long_case(case, res):
         # + the rounding of the phase argument 2 pi b n/N itself in double precision (|argument| <= 2 pi |b|), which the float64
         #   reference shares
         tol = (256 * eps + 8 * math.pi * abs(float(bex)) * float(np.finfo(np.float64).eps)) * float(np.max(np.abs(x)))
-        if abs(bex - round(bex)) < 1e-9 and bex.denominator != 1:
+        if abs(bex - round(bex)) < 1e-8 and bex.denominator != 1:
             res.skipped["boundary bin open: shift within rounding of a whole bin (non-dyadic sample spacing)"] += 1
             continue
         if not res.ratio("long-signal err / (256 eps)", e, tol):
@@ -326,6 +327,17 @@ def check_case(case):
             res.hits["sample_rate assigned between shifts"] += 1
     history.reuse_buffer(res, case, zg, [("freq_shift 1 bin", lambda q_: pb.freq_shift(q_, (1 * sr_in_unit / N) * unit)),
                                          ("freq_shift -2.5 bins", lambda q_: pb.freq_shift(q_, (-2.5 * sr_in_unit / N) * unit))], "freq_shift")
+    # a shift array longer than the sample axis it is matched with must be refused (never enlarge the signal)
+    for bad_shape in [tuple(n_ + 1 if i == k_ else n_ for i, n_ in enumerate(ss[:m_])) for m_ in range(1, len(ss) + 1) for k_ in range(m_)]:
+        res.transitions += 1
+        try:
+            o_ = pb.freq_shift(zg, np.ones(bad_shape) * unit)
+            res.violation("freq_shift|mismatching shift shape accepted", f"shift of shape {bad_shape} on sample shape {ss}: returned "
+                          f"shape {o_.shape}", case, {"shape": list(bad_shape)})
+        except ValueError:
+            res.hits["mismatching shift shape refused"] += 1
+        except Exception as e:
+            res.violation("freq_shift|mismatching shift shape wrong exception", f"{type(e).__name__}: {e}", case, {"shape": list(bad_shape)})
     # error contract
     zi = factory.make("IntensitySignal", np.ones((4, 2)), rate_name="1Hz", chan_bw=1 * u.Hz)
     for bad, exc, what in ((lambda: pb.freq_shift(zi, 1 * u.Hz), TypeError, "non-baseband"),
@@ -348,7 +360,7 @@ def check_case(case):
 def main(argv=None):
     return report.run_check(
         PID, gen_cases=gen_cases, check_case=check_case, describe=describe,
-        required_hits=["buffer overwritten between calls", "wrapped bins checked", "|shift| >= bandwidth (all zero)",
+        required_hits=["buffer overwritten between calls", "mismatching shift shape refused", "wrapped bins checked", "|shift| >= bandwidth (all zero)",
                        "scalar shift on multi-element sample shape", "shift broadcast across sample axes", "alternating complex widths", "sample_rate assigned between shifts", "long signal", "error contract"],
         assumptions=["value budget 64*eps(dtype)*N*max|x|; the mixing phasor is computed in the signal's own precision",
                      "a shift within 1e-9 of a whole bin at a non-dyadic rate leaves the single boundary bin open"],
